@@ -1,6 +1,7 @@
 """C11 — CP-APR returns a non-negative model and a truthful objective.
 
 Decided (structural necessary conditions in cp_apr.py; thin by nature, see "Not decided"):
+  DIV0     in the row helpers that clamp a denominator with their eps parameter, every division by a non-constant is clamped
   PROJ    in the row line search every candidate model_new = <step> is projected onto the non-negative orthant
           (model_new *= model_new > 0, or np.maximum(., 0)) before it is evaluated or returned
   PHI     the multiplicative-update matrix of the sparse branch is written for EVERY index of the mode (full-column stores of an
@@ -162,6 +163,38 @@ def proj(prog: Program, res: Result) -> None:
             res.bad("PROJ", fi.short, desc, prog.loc(fi, st), "it is never projected: a step with negative entries can be returned")
     if k == 0:
         res.undecided("PROJ", fi.short, "line-search candidates are projected", prog.loc(fi), "no candidate assignment found")
+
+
+def div_guard(prog: Program, res: Result) -> None:
+    """The row helpers divide data by model values; a model value can be exactly zero (an empty slice, a zero row of the guess), so every
+    such quotient has its denominator clamped with np.maximum(., <eps parameter>).  In a helper that clamps at least one quotient with its
+    eps parameter, every other division by a non-constant must be clamped too (0/0 = NaN poisons the Hessian and the search direction)."""
+    import re
+    for q, fi in sorted(prog.functions.items()):
+        if fi.module != "pyttb.cp_apr" or fi.parent:
+            continue
+        eps = [p for p in fi.params() if re.fullmatch(r"eps(ilon)?|eps_?div_?zero|epsDivZero", p)]
+        if not eps:
+            continue
+
+        def clamped(e: ast.AST) -> bool:
+            e = fi.resolve(e)
+            while isinstance(e, ast.Subscript):
+                e = e.value
+            return isinstance(e, ast.Call) and (dotted(e.func) or "").split(".")[-1] == "maximum" \
+                and any(isinstance(a, ast.Name) and a.id in eps for a in e.args)
+        divs = [n for n in ast.walk(fi.node) if isinstance(n, ast.BinOp) and isinstance(n.op, ast.Div)
+                and not isinstance(n.right, ast.Constant)]
+        if not any(clamped(d.right) for d in divs):
+            continue
+        for d in divs:
+            desc = f"quotient `{ast.unparse(d)[:60]}` has its denominator clamped away from zero with the helper's eps"
+            if clamped(d.right):
+                res.ok("DIV0", fi.short, desc, prog.loc(fi, d))
+            else:
+                res.bad("DIV0", fi.short, desc, prog.loc(fi, d),
+                        f"the denominator `{ast.unparse(d.right)[:40]}` is not np.maximum(., {eps[0]}): where the model value is exactly 0 (and the "
+                        "data too) the quotient is 0/0 = NaN, which no later comparison rejects")
 
 
 def obj_order(prog: Program, res: Result) -> None:
@@ -345,7 +378,7 @@ def phi_cover(prog: Program, res: Result) -> None:
 def check(prog: Program, res: Result, tier: str) -> None:
     res.explanation = __doc__.split("\n\n", 1)[1]
     res.assumptions = ["ktensor.normalize only re-parameterises (C08); tt_loglikelihood evaluates the Poisson log-likelihood of its arguments"]
-    res.floors = {"PROJ": 2, "OBJ": 3, "TRACE": 12, "KKT": 3, "LOOP": 5, "START": 4, "PHI": 1, "LL": 8}
+    res.floors = {"PROJ": 2, "OBJ": 3, "TRACE": 12, "KKT": 3, "LOOP": 5, "START": 4, "PHI": 1, "LL": 8, "DIV0": 4}
     proj(prog, res)
     phi_cover(prog, res)
     obj_order(prog, res)
@@ -353,6 +386,7 @@ def check(prog: Program, res: Result, tier: str) -> None:
     trace(prog, res)
     kkt(prog, res)
     start(prog, res)
+    div_guard(prog, res)
 
 
 # ------------------------------------------------------------------ LL: which entries contribute x*log(m)
